@@ -38,6 +38,7 @@ PROPS["C10"] = dict(
 
 PROPS["C13"] = dict(
     level="other", claimed=True,
+    technique="bounded stand-in only: the real functions executed natively over an enumerated space and compared with a reference written in the check; no deductive obligation could be generated for these functions (see level_text), so nothing is counted as proved",
     level_text="Bounded differential execution of the real ReadAdapter against SliceReader (the reference semantics): every "
                "operation sequence up to length 3 on short streams under several chunkings, and long seeded sequences across the "
                "256-byte internal buffer. This is a bounded stand-in, not a proof: the type (RefCell<BufReader<&mut dyn Read>> "
@@ -95,6 +96,7 @@ PROPS["C20"] = dict(
 
 PROPS["C09"] = dict(
     level="other", claimed=True,
+    technique="bounded stand-in only: the real functions executed natively over an enumerated space and compared with a reference written in the check; no deductive obligation could be generated for these functions (see level_text), so nothing is counted as proved",
     level_text="Bounded stand-in only (native execution of the real transforms against direct evaluation written in the check): "
                "FFT evaluation / interpolation with offsets and blowups, degree inference, and the column-batched and segmented "
                "low-degree extension of matrices agree with direct polynomial evaluation on the enumerated space. No deductive "
@@ -106,6 +108,7 @@ PROPS["C09"] = dict(
 
 PROPS["C17"] = dict(
     level="other", claimed=True,
+    technique="bounded stand-in only: the real functions executed natively over an enumerated space and compared with a reference written in the check; no deductive obligation could be generated for these functions (see level_text), so nothing is counted as proved",
     level_text="Bounded stand-in only (native execution of the real constraint evaluator and composition-polynomial code against "
                "the definition computed directly in the check from the trace polynomials, the constraint formulas, the documented "
                "divisors and naively interpolated value polynomials). No deductive contract: the evaluator, periodic table and "
